@@ -478,6 +478,28 @@ struct Lab {
         check_vptr(x);
         return r;
     }
+    // a container without next (add_definition_<C, false>)
+    struct vkick_vr_plain {
+        static int fn(VR& x) {
+            return see1(404, x);
+        }
+    };
+    // a container that gets its next from method::use_next
+    struct wkick_cat_next : wkick::template use_next<wkick_cat_next> {
+        static int fn(y2::virtual_ptr<std::shared_ptr<Cat>, P> x) {
+            see1(834, *x);
+            check_vptr(x);
+            const void* me = g_seen.most_derived[0];
+            int bad = g_seen.vptr_bad;
+            int n = wkick_cat_next::next(x);
+            g_seen.next_code = n;
+            g_seen.code = 834;
+            g_seen.n = 1;
+            g_seen.most_derived[0] = me;
+            g_seen.vptr_bad |= bad;
+            return 834;
+        }
+    };
     static int svkick_vd(std::shared_ptr<VD> x) {
         return see1(841, *x);
     }
@@ -666,6 +688,15 @@ struct Lab {
         v.push_back(def_item<svkick, typename svkick::template add_function<svkick_vr>>("svkick(VR)", 11, {cVR}, 842));
         v.push_back(def_item<ckick, typename ckick::template add_function<free_ckick_cat>>("ckick(Cat), policy-independent function", 7, {cCat}, 804));
         v.push_back(def_item<ckick, typename ckick::template add_function<free_ckick_bulldog>>("ckick(Bulldog), policy-independent function", 7, {cBulldog}, 805));
+        v.push_back(def_item<vkick, typename vkick::template add_definition<vkick_vr_plain>>("vkick(VR), container without next", 3, {cVR}, 404));
+        v.push_back(def_item<wkick, typename wkick::template add_definition<wkick_cat_next>>("wkick(Cat)+use_next", 10, {cCat}, 834, true));
+        {
+            static void (*inner2)() = v.back().unload;
+            v.back().unload = [] {
+                inner2();
+                wkick_cat_next::next = nullptr;
+            };
+        }
         // kick(Cat)+next registered again, this time without naming its next
         int original = -1;
         for (int i = 0; i < (int)v.size(); ++i)
@@ -1383,7 +1414,8 @@ struct TwExec {
                     table[key] = obs;
                     if (want.kind == RES_DEF) {
                         int code = code_of_def[want.def];
-                        if (r.threw && code != 105) {
+                        bool calls_next = code == 105 || code == 834;
+                        if (r.threw && !calls_next) {
                             fail("C01", "error-for-definition", where + " raised an error instead of running definition " + std::to_string(code));
                             continue;
                         }
@@ -1394,7 +1426,7 @@ struct TwExec {
                         for (int i = 0; i < r.seen.n; ++i)
                             if (r.seen.most_derived[i] != r.expect_md[i])
                                 fail("C01", "wrong-object", where + ": the definition received another object than the caller passed, position " + std::to_string(i));
-                        if (code == 105) {
+                        if (calls_next) {
                             // the container definition calls next
                             Res nx = next_of(plan, L, defs, want.def);
                             if (nx.kind == RES_DEF) {
@@ -1589,7 +1621,7 @@ J tw_gen(std::uint64_t seed, int tier, long) {
     bool eager_custom = pol == "tw_cus";
     // which part of the menu this run may use (swarm)
     constexpr int CI_END = 25, M_END = 37; // class items, then methods, then definitions
-    int nitems = 75; // the last one is the duplicate registration
+    int nitems = 77; // the last one is the duplicate registration
     std::vector<int> enabled;
     double p = 0.35 + 0.5 * (r.below(100) / 100.0);
     for (int k = 0; k < nitems; ++k)
